@@ -7,6 +7,12 @@ replay.json). `--check Cxx` runs another property's check instead (recorded unde
 also_detected_by). Never leaves /repo modified."""
 import json, os, shutil, subprocess, sys, time, glob
 
+# isolated regression runs: RECHECK_REPO / RECHECK_VERIF point at scratch copies (a worktree of /repo,
+# a copy of /verif whose manifests point at it); the seeded defects are always read from /verif/seeded
+REPO = os.environ.get("RECHECK_REPO", "/repo")
+VERIF = os.environ.get("RECHECK_VERIF", "/verif")
+UPDATE_META = VERIF == "/verif"
+
 args = sys.argv[1:]
 other = None
 tier = "quick"
@@ -29,23 +35,23 @@ def sh(cmd, cwd=None, timeout=2400):
     return p.returncode, p.stdout + p.stderr
 
 
-assert sh("git -C /repo status --short")[1].strip() == "", "/repo is not clean"
+assert sh(f"git -C {REPO} status --short")[1].strip() == "", "/repo is not clean"
 for sid in ids:
     d = f"/verif/seeded/{sid}"
     prop = sid.split("-")[0]
     chk = other or prop
-    rc, out = sh(f"git -C /repo apply {d}/patch.diff")
+    rc, out = sh(f"git -C {REPO} apply {d}/patch.diff")
     if rc != 0:
         print(sid, "PATCH DOES NOT APPLY", out.strip()[:200])
         continue
-    ev = f"/verif/evidence/{chk}.json"
+    ev = f"{VERIF}/evidence/{chk}.json"
     saved = open(ev).read() if os.path.exists(ev) else None
     try:
         t = time.time()
-        rc, out = sh(f"./check {chk} --tier {tier}", cwd="/verif")
+        rc, out = sh(f"./check {chk} --tier {tier}", cwd=VERIF)
         viol = [l for l in out.splitlines() if l.startswith("VIOLATION") or (l.startswith("[") and "violates" in l)]
         meta = json.load(open(f"{d}/meta.json"))
-        rec = {"exit": rc, "lines": [v[:400] for v in viol[:4]], "wall_s": round(time.time() - t), "tier": tier, "repo_head": sh("git -C /repo rev-parse --short HEAD")[1].strip()}
+        rec = {"exit": rc, "lines": [v[:400] for v in viol[:4]], "wall_s": round(time.time() - t), "tier": tier, "repo_head": sh(f"git -C {REPO} rev-parse --short HEAD")[1].strip()}
         if other:
             meta.setdefault("also_detected_by", {})[other] = rec
         else:
@@ -57,13 +63,14 @@ for sid in ids:
             for l in out.splitlines():
                 if l.startswith("VIOLATION"):
                     rp = l.split("replay=")[1].strip()
-                    if os.path.exists(rp):
+                    if os.path.exists(rp) and UPDATE_META:
                         shutil.copy(rp, f"{d}/replay.json")
-        json.dump(meta, open(f"{d}/meta.json", "w"), indent=1)
+        if UPDATE_META:
+            json.dump(meta, open(f"{d}/meta.json", "w"), indent=1)
         print(sid, "check", chk, tier, "exit", rc, (viol[-1][:160] if viol else ""))
     finally:
-        sh("git -C /repo checkout -- .")
+        sh(f"git -C {REPO} checkout -- .")
         # the evidence file describes the unchanged tree: a run against a seeded defect must not replace it
         if saved is not None:
             open(ev, "w").write(saved)
-    assert sh("git -C /repo status --short")[1].strip() == "", "/repo not clean after " + sid
+    assert sh(f"git -C {REPO} status --short")[1].strip() == "", "/repo not clean after " + sid
